@@ -348,7 +348,10 @@ class StreamReal:
                     if kind == "bytes":
                         f = s.read_bytes(k[1], partial=bool(k[2]))
                     elif kind == "into":
-                        buf = bytearray(k[1])
+                        # the caller's buffer is reused memory: pre-filled with content that matches every
+                        # delimiter / regex the reads use, so bytes that were never received show if the
+                        # stream ever serves them
+                        buf = bytearray((b"\n\nab\r\n\r\n" * (k[1] // 8 + 1))[:k[1]])
                         f = s.read_into(buf, partial=bool(k[2]))
                     elif kind == "until":
                         f = s.read_until(bytes(k[1]), max_bytes=(k[2] or None))
